@@ -5,7 +5,10 @@
   two-parameter methods) the model constructor returns `Ok` or `Err` — never a panic or an overflow
   — and returns `Err` on the documented too-small lengths and on `PeriodType::MAX`.
   "Accepted instances never panic" is part of the C02/C03/C04/C14/C17 theorems for the methods
-  proved there (`runM … = .ok …` for every stream); for the others, and for all indicators, it is
+  proved there (`runM … = .ok …` for every stream) and, among the indicators, for Ichimoku, MoneyFlowIndex,
+  TrendStrengthIndex and Donchian over whole candle streams (`C10_indicators_never_panic`); an indicator's `init`
+  returns `WrongConfig` exactly as its `validate` dictates (`C10_indicator_validate_rejects`, five representative models;
+  every model's init result is compared with the real `init` for every generated configuration). For the others it is
   covered by the correspondence run: all 256 values of every length parameter (all 65 536 pairs in
   the thorough tier) in debug and release builds, every indicator parameter swept over all its
   values / boundary classes incl. NaN and infinities, accepted instances driven with valid candles.
@@ -13,6 +16,10 @@
 -/
 import YataProofs.Ctors
 import YataProps.C02
+import YataProofs.Indicators.IchiRun
+import YataProofs.Indicators.MFIRange
+import YataProofs.Indicators.TSIndRange
+import YataProofs.Indicators.More
 namespace Yata.C10
 open Yata
 variable {K : Type} [Field K] [LinearOrder K] [IsStrictOrderedRing K] [DecidableEq K]
@@ -58,6 +65,49 @@ theorem C10_accepted_sma_never_panics {P n : Nat} (v : K) (hn0 : 0 < n) (hn : n 
   obtain ⟨s0, outs, s', h1, h2, _⟩ := Yata.C02.C02_sma v hn0 hn xs
   exact ⟨s0, outs, s', h1, h2⟩
 
+open Yata.Ind in
+/-- accepted indicator instances never panic, over every candle stream (exact-arithmetic models) -/
+theorem C10_indicators_never_panic {P : Nat} (cs : List (Candle ℚ)) :
+    (∀ (c : IchiCfg) (k0 : Candle ℚ), 0 < c.l1 → c.l1 < c.l2 → c.l2 < c.l3 → c.l3 ≤ P - 1 → 0 < c.m → c.m < P →
+      ∃ s0 outs s', Ichi.init P c k0 = .ok s0 ∧ runM Ichi.vals s0 cs = .ok (outs, s')) ∧
+    (∀ (period : Nat) (zone : ℚ) (c0 : Candle ℚ) (s0 : MFI), MFI.init P period zone c0 = .ok s0 →
+      (∀ c ∈ cs, 0 ≤ c.volume) → ∃ outs s', runM MFI.vals s0 cs = .ok (outs, s')) ∧
+    (∀ (period ro : Nat) (zone : ℚ) (source : Source) (src0 : ℚ) (s0 : TSInd) (xs : List ℚ),
+      TSInd.init P period zone ro source src0 = .ok s0 → ∃ outs s', runM TSInd.vals s0 xs = .ok (outs, s')) ∧
+    (∀ (n : Nat) (k0 : Candle ℚ), 1 < n → n ≤ P - 1 →
+      ∃ s0 outs s', Channel.init P n 1 true k0 = .ok s0 ∧ runM (fun s k => Channel.donchianVals s k) s0 cs = .ok (outs, s')) := by
+  refine ⟨?_, ?_, ?_, ?_⟩
+  · intro c k0 h1 h12 h23 h3 hm0 hm
+    obtain ⟨s0, outs, s', a, b, _⟩ := Ichi.run_ok (P := P) c k0 h1 h12 h23 h3 hm0 hm cs
+    exact ⟨s0, outs, s', a, b⟩
+  · intro period zone c0 s0 h0 hv
+    obtain ⟨outs, s', a, _⟩ := MFI.run_range zone c0 s0 h0 cs hv
+    exact ⟨outs, s', a⟩
+  · intro period ro zone source src0 s0 xs h0
+    obtain ⟨hinv, hc, _, _⟩ := TSInd.init_inv zone source src0 s0 h0
+    obtain ⟨os, s', hr, _⟩ := runM_invariant TSInd.vals
+      (fun h s => TSInd.Inv P (List.replicate period src0 ++ h) s ∧ TSInd.Consts s) (fun _ _ => True)
+      (by
+        rintro h s x ⟨hi, hcs⟩
+        obtain ⟨p, q, κn, κd, s', hv, _, hi', hc'⟩ := TSInd.vals_sq_le x hi hcs
+        exact ⟨_, s', hv, ⟨by rw [← List.append_assoc]; exact hi', hc'⟩, trivial⟩)
+      xs [] s0 ⟨by simpa using hinv, hc⟩
+    exact ⟨os, s', hr⟩
+  · intro n k0 hn1 hn
+    obtain ⟨s0, outs, s', a, b, _⟩ := Channel.donchian_run (P := P) k0 hn1 hn cs
+    exact ⟨s0, outs, s', a, b⟩
+
+open Yata.Ind in
+/-- `init` refuses exactly what `validate` refuses (five representative indicator models) -/
+theorem C10_indicator_validate_rejects (P : Nat) (k : Candle ℚ) :
+    (∀ c : IchiCfg, Ichi.validate P c = false → Ichi.init P c k = .err .wrongConfig) ∧
+    (∀ c : StochCfg, Stoch.validate c = false → Stoch.init P c k = .err .wrongConfig) ∧
+    (∀ c : KeltnerCfg, Keltner.validate c = false → Keltner.init P c k = .err .wrongConfig) ∧
+    (∀ c : EnvCfg, Env.validate c = false → Env.init P c k = .err .wrongConfig) ∧
+    (∀ c : AOCfg, AO.validate P c = false → AO.init P c k = .err .wrongConfig) :=
+  ⟨fun c h => by simp [Ichi.init, h], fun c h => by simp [Stoch.init, h], fun c h => by simp [Keltner.init, h],
+   fun c h => by simp [Env.init, h], fun c h => by simp [AO.init, h]⟩
+
 /-! non-vacuity: the default PeriodType -/
 example : (SMA.new 255 255 (1 : ℚ)).isErr ∧ (SMA.new 255 254 (1 : ℚ)).noPanic := by
   constructor
@@ -71,3 +121,5 @@ end Yata.C10
 #print axioms Yata.C10.C10_two_parameter_constructors
 #print axioms Yata.C10.C10_conv
 #print axioms Yata.C10.C10_accepted_sma_never_panics
+#print axioms Yata.C10.C10_indicators_never_panic
+#print axioms Yata.C10.C10_indicator_validate_rejects
